@@ -1808,3 +1808,65 @@ func slotsOfType(fn *ssa.Function, pred func(types.Type) bool) []paramSlot {
 	}
 	return out
 }
+
+// privateHelpersOf: fn and the unexported functions of its package (same receiver type, or none)
+// that are reached only from fn: the phases a function was split into.
+func privateHelpersOf(p *Prog, fn *ssa.Function) []*ssa.Function {
+	out := []*ssa.Function{fn}
+	for _, h := range withCallees(p, fn, 2) {
+		if h == fn || h.Parent() != nil || h.Object() == nil || h.Object().Exported() {
+			continue
+		}
+		if rn := recvNamed(h); rn != nil && rn != recvNamed(fn) {
+			continue
+		}
+		if onlyCalledFrom(p, h, fn, 2) {
+			out = append(out, h)
+		}
+	}
+	return out
+}
+
+func eachCallIn(fns []*ssa.Function, f func(ssa.CallInstruction)) {
+	for _, fn := range fns {
+		eachCall(fn, f)
+	}
+}
+
+func eachInstrIn(fns []*ssa.Function, f func(ssa.Instruction)) {
+	for _, fn := range fns {
+		eachInstr(fn, f)
+	}
+}
+
+// followReturns: the values v stands for, looking through results of functions of the program: a
+// value extracted from the result of a call is replaced by what the callee returns in that position.
+func followReturns(p *Prog, v ssa.Value, depth int) []ssa.Value {
+	var out []ssa.Value
+	for _, o := range origins(v) {
+		var call *ssa.Call
+		idx := 0
+		switch x := o.(type) {
+		case *ssa.Extract:
+			call, _ = x.Tuple.(*ssa.Call)
+			idx = x.Index
+		case *ssa.Call:
+			call = x
+		}
+		if call == nil || depth <= 0 {
+			out = append(out, o)
+			continue
+		}
+		callee := call.Call.StaticCallee()
+		if callee == nil || callee.Blocks == nil || !p.InRepo(callee) {
+			out = append(out, o)
+			continue
+		}
+		eachInstr(callee, func(in ssa.Instruction) {
+			if ret, ok := in.(*ssa.Return); ok && idx < len(ret.Results) {
+				out = append(out, followReturns(p, ret.Results[idx], depth-1)...)
+			}
+		})
+	}
+	return out
+}
